@@ -949,11 +949,11 @@ def render_case(case):
 
 
 SUBCHECKS = [
-    SubCheck("pairs", check_pair, strategy=_pair_strategy, enumerate=enumerate_pairs,
+    SubCheck("pairs", check_pair, strategy=_pair_strategy, enumerate=enumerate_pairs, exhaustive_tiers=("thorough",),
              budget={"quick": 6000, "thorough": 300000}, timeout={"quick": 10, "thorough": 20},
              exhaustive="all ordered pairs of the recipe universe (quick: every same-shape pair and a 1-in-%d sample "
                         "of the others)" % QUICK_PAIR_STRIDE, render=render_case),
-    SubCheck("triples", check_triple, strategy=_triple_strategy, enumerate=enumerate_triples,
+    SubCheck("triples", check_triple, strategy=_triple_strategy, enumerate=enumerate_triples, exhaustive_tiers=("thorough",),
              budget={"quick": 4000, "thorough": 200000}, timeout={"quick": 10, "thorough": 20},
              exhaustive="all ordered triples inside every same-shape cluster of the universe (quick: first 10 members "
                         "of a cluster) plus 10000 (thorough 400000) pseudo-random triples", render=render_case),
